@@ -408,7 +408,77 @@ fn program_case(src: &mut Src, ctx: &mut Ctx) -> Result<(), String> {
 }
 
 // ---- cyclic programs ------------------------------------------------------------------------------------------
+/// A cell that contains itself - directly, or through one of the unit cells it instantiates - has no
+/// finite layout: placing the library must report it, whether the offending instance is absolute or
+/// placed relative to a sibling.
+fn self_containing_case(src: &mut Src, ctx: &mut Ctx) -> Result<(), String> {
+    let p = gen_program(src);
+    let (lib, top, _twin) = build(&p);
+    let through_unit = src.prob(1, 3);
+    let relative = src.prob(1, 3);
+    let listed_as_placeable = src.prob(1, 4);
+    // the cell that receives the instance of `top`
+    let host: Ptr<Cell> = if through_unit {
+        let t = top.read().unwrap();
+        let lay = t.layout.as_ref().unwrap();
+        let all: Vec<Ptr<Instance>> = lay.instances.iter().cloned().chain(lay.places.iter().filter_map(|pl| if let Placeable::Instance(i) = pl { Some(i.clone()) } else { None })).collect();
+        let k = src.index(all.len());
+        let c = all[k].read().unwrap().cell.clone();
+        c
+    } else {
+        top.clone()
+    };
+    {
+        let mut h = host.write().unwrap();
+        let lay = h.layout.as_mut().unwrap();
+        let sibling = lay.instances.iter().next().cloned();
+        let loc = match (relative, sibling) {
+            (true, Some(sib)) => Place::Rel(RelativePlace { to: Placeable::Instance(sib), side: tet::placement::Side::Top, align: Align::Side(tet::placement::Side::Right), sep: Separation::default() }),
+            _ => (7isize, 11isize).into(),
+        };
+        let inst = Ptr::new(Instance { inst_name: "myself".into(), cell: top.clone(), loc, reflect_horiz: false, reflect_vert: false });
+        if listed_as_placeable {
+            lay.places.push(Placeable::Instance(inst));
+        } else {
+            lay.instances.push(inst);
+        }
+    }
+    ctx.label(if through_unit { "cell containing itself through a unit cell" } else { "cell containing itself directly" });
+    ctx.nontrivial(hash_of(&(&p, through_unit, relative, listed_as_placeable)));
+    match tet::placer::Placer::place(lib, empty_stack()) {
+        Err(_) => Ok(()),
+        Ok(_) => Err(format!("a cell that contains an instance of itself ({}, {} instance{}) was placed without an error; program {:?}", if through_unit { "through a unit cell" } else { "directly" }, if relative { "relative" } else { "absolute" }, if listed_as_placeable { " listed as placeable" } else { "" }, p)),
+    }
+}
+/// fixed ab62e2a: a cell whose list of objects awaiting placement holds an instance of the cell itself, placed
+/// relative to a sibling, was not seen by the cyclic-instantiation check; the placer then waited forever for
+/// the cell's own lock. An error is required.
+fn literal_case(_src: &mut Src, ctx: &mut Ctx) -> Result<(), String> {
+    let mut lib = tet::library::Library::new("plib");
+    let unit = lib.cells.add(Cell::from(Layout::new("c0", 0, Outline::rect(3, 4).unwrap())));
+    let mut top = Layout::new("top", 0, Outline::rect(100, 100).unwrap());
+    let sib = Ptr::new(Instance { inst_name: "i0".into(), cell: unit.clone(), loc: (0isize, 0isize).into(), reflect_horiz: false, reflect_vert: false });
+    top.instances.push(sib.clone());
+    let top = lib.cells.add(Cell::from(top));
+    let me = Ptr::new(Instance {
+        inst_name: "myself".into(),
+        cell: top.clone(),
+        loc: Place::Rel(RelativePlace { to: Placeable::Instance(sib), side: tet::placement::Side::Top, align: Align::Side(tet::placement::Side::Right), sep: Separation::default() }),
+        reflect_horiz: false,
+        reflect_vert: false,
+    });
+    top.write().unwrap().layout.as_mut().unwrap().places.push(Placeable::Instance(me));
+    ctx.label("literal: cell awaiting placement of an instance of itself");
+    ctx.nontrivial(hash_of(&"self-placeable"));
+    match tet::placer::Placer::place(lib, empty_stack()) {
+        Err(_) => Ok(()),
+        Ok(_) => Err("a cell holding a relatively placed instance of itself among its objects awaiting placement was placed without an error".into()),
+    }
+}
 fn cyclic_case(src: &mut Src, ctx: &mut Ctx) -> Result<(), String> {
+    if src.prob(1, 5) {
+        return self_containing_case(src, ctx);
+    }
     let mut p = gen_program(src);
     // splice a cycle of length 1..5: pick k instances and chain them in a ring
     let n = p.insts.len();
@@ -546,7 +616,7 @@ fn array_case(src: &mut Src, ctx: &mut Ctx) -> Result<(), String> {
 }
 
 fn run(run: &mut Run) {
-    run.rule("The single-relation table (4 sides x 2 orthogonal alignments x 4 reflections of the placed x 4 of the reference instance x 3 separation kinds = 384, exhaustive); random programs of 1-25 instances over 1-5 cell sizes: 1-3 absolute roots, every other instance placed relative to an earlier one (chains and trees), all sides/alignments/reflections/separations, instance indices relabelled and the listing shuffled, each placed in two listing orders; cyclic programs (cycle length 1-5 spliced in) must be errors; absolute array instances with count 0-6, pitch in x and/or y, both reflections, nesting depth <= 3. Oracle: bounding-box model of the relation; Instance::boundbox() must agree. Non-trivial = chain depth >= 2 with a reflected relative instance and a listing that is not dependency order; distinct by hash of the program.");
+    run.rule("The single-relation table (4 sides x 2 orthogonal alignments x 4 reflections of the placed x 4 of the reference instance x 3 separation kinds = 384, exhaustive); random programs of 1-25 instances over 1-5 cell sizes: 1-3 absolute roots, every other instance placed relative to an earlier one (chains and trees), all sides/alignments/reflections/separations, instance indices relabelled and the listing shuffled, each placed in two listing orders; cyclic programs (cycle length 1-5 spliced in; one in five a cell that contains an instance of itself, directly or through a unit cell, absolute or relative, in `instances` or among the objects awaiting placement) must be errors; absolute array instances with count 0-6, pitch in x and/or y, both reflections, nesting depth <= 3. Oracle: bounding-box model of the relation; Instance::boundbox() must agree. Non-trivial = chain depth >= 2 with a reflected relative instance and a listing that is not dependency order; distinct by hash of the program.");
     run.assume("non-orthogonal side/alignment pairs, Center/Ports alignment, placement relative to arrays/groups and relative array placement are unimplemented in the code and outside the quantifier");
     run.min_nontrivial = 200;
     run.enumerate("relation-table", table_total(), &table_case);
@@ -554,6 +624,7 @@ fn run(run: &mut Run) {
     // the same, each case in a thread of its own (per-thread state of the code starts from scratch)
     run.explore_fresh("programs", run.tier.pick(3_000, 40_000), 400, &program_case);
     run.explore("cyclic", run.tier.pick(40_000, 400_000), 400, &cyclic_case);
+    run.literals("literals", &[vec![0]], &literal_case);
     run.explore("arrays", run.tier.pick(200_000, 2_000_000), 200, &array_case);
     // the same, each case in a thread of its own (per-thread state of the code starts from scratch)
     run.explore_fresh("arrays", run.tier.pick(3_000, 40_000), 200, &array_case);
@@ -563,6 +634,7 @@ fn case(sub: &str) -> Option<Box<CaseFn<'static>>> {
         "relation-table" => Some(Box::new(table_case)),
         "programs" => Some(Box::new(program_case)),
         "cyclic" => Some(Box::new(cyclic_case)),
+        "literals" => Some(Box::new(literal_case)),
         "arrays" => Some(Box::new(array_case)),
         _ => None,
     }
